@@ -51,10 +51,17 @@ def render_layout(tree, kind, rng=None):
             out.append(" ; c" + str(i) + " (not (x))\n" if i % 3 == 0 else " ")
         out.append("\n;trailing comment")
         return "".join(out)
+    if kind == "comments_glued":
+        # the comment starts right after the token, without a blank: `vehicle;all movers (x`
+        out = [";leading\n"]
+        for i, t in enumerate(toks):
+            out.append(t)
+            out.append(";c" + str(i) + " all (movers\n" if i % 2 == 0 else "\t")
+        return "".join(out)
     raise ValueError(kind)
 
 
-LAYOUTS = ["oneline", "token_per_line", "tabs", "crlf", "upper", "comments"]
+LAYOUTS = ["oneline", "token_per_line", "tabs", "crlf", "upper", "comments", "comments_glued"]
 
 # ---------------------------------------------------------------------------------------------
 # out-of-fragment forms (precondition / effect bodies and declarations)
